@@ -14,7 +14,7 @@ import common
 from common import cz, cq, cstr, clist, cpair, cbool, copt
 
 IMPORTS = ["Base", "Consts", "Pileup", "Consts_here"]
-CHROM, OTHER, CHRLEN = "20", "21", 30000
+CHROM, OTHER, CHRLEN = "20", "120", 30000     # the other contig's name ENDS with the gene's: only an exact comparison of names tells them apart
 HEADER = {"HD": {"VN": "1.0", "SO": "unsorted"}, "SQ": [{"SN": CHROM, "LN": CHRLEN}, {"SN": OTHER, "LN": CHRLEN}]}
 OPS = "MIDNSHP=X"
 
